@@ -470,8 +470,13 @@ pub fn property() -> Property {
             "the reply grammar excludes empty interior items and leading separators (unspecified)",
             "subscripts of INPUT targets contain no RND or function call (whether they are re-evaluated on REENTER is unspecified)",
         ],
+        fuzz: None,
         families,
-        prelude: None,
+        prelude: Some(Box::new(|_, rec| {
+            let n = crate::selftest::run()?;
+            rec.set_extra("model_selftest_programs", serde_json::json!(n));
+            Ok(vec![])
+        })),
         epilogue: None,
     }
 }
